@@ -39,6 +39,7 @@ OpProp(op, kind) ==
    ELSE IF op \in {"retain", "extract_if", "t_extract_if", "drain"} THEN {"C10"} \cup KindProp(kind)
    ELSE IF op \in {"iter", "into_iter"} THEN {"C09"}
    ELSE IF op \in ParOps THEN {"C19"}
+   ELSE IF op \in {"serde_roundtrip", "serde_de", "serde_de_in_place"} THEN {"C20"}
    ELSE IF op \in {"clone", "clone_from", "eq"} THEN {"C11"} \cup (IF kind = "set" /\ op = "eq" THEN {"C07"} ELSE {})
    ELSE IF op \in {"get_many_mut", "get_many_kv_mut", "t_get_many_mut"} THEN {"C15"} \cup KindProp(kind)
    ELSE IF op \in {"s_entry_insert", "s_entry_or_insert", "s_entry_remove", "s_entry_get", "s_entry_into_value"} THEN {"C14", "C07"}
@@ -155,6 +156,12 @@ TGetManyAbs(e, A, pre, h0, tr) ==
              /\ \A i \in (1..N) \ found : e.r[N + i] = -1 /\ WithHash({x \in A : accE(i, x)}, h0[e.ks[i]]) = {}
              /\ \A i, j \in found : i # j => e.r[N + i] # e.r[N + j])
 
+\* ---- serde (C20): deserialize = bounded reservation, then sequential inserts (last value wins); error => drop
+Pairs(ks) == [i \in 1..(Len(ks) \div 2) |-> <<ks[2 * i - 1], ks[2 * i]>>]
+Singles(ks) == [i \in 1..Len(ks) |-> <<ks[i], 0>>]
+LastWins(ps) == {ps[i] : i \in {q \in 1..Len(ps) : \A r \in (q + 1)..Len(ps) : ps[r][1] # ps[q][1]}}
+CautiousBuckets == 8192          \* capacity_to_buckets(4096): the reservation made before any element is read
+
 ---------------------------------------------------------------------------
 Init == /\ l = 1
         /\ hd = [W |-> W]
@@ -206,6 +213,26 @@ OpStep(e) ==
           [] e.op \in {"get_many_mut", "get_many_kv_mut"} -> GetManyAbs(e, A, obsT[t])
           [] e.op = "clone" -> AR(A, AllIds(A2), e.pn = "")              \* table u is replaced by a clone of t
           [] e.op = "clone_from" -> AR(A, AllIds(A), e.pn = "")          \* contents of t replaced (checked below)
+          [] e.op = "serde_roundtrip" -> AR(A, AllIds(A2), e.pn = "")
+          [] e.op \in {"serde_de", "serde_de_in_place"} ->
+               LET ps == IF hd.kind = "map" THEN Pairs(e.ks) ELSE Singles(e.ks)
+                   n == Len(ps)
+                   okExp == e.j < 0 \/ e.j > n
+                   N == Elems(obsT[t])
+                   seen == IF okExp THEN ps ELSE SubSeq(ps, 1, e.j)       \* items consumed before the error
+                   replaced == e.op = "serde_de_in_place" \/ okExp        \* the old contents are gone
+               IN AR(A, {},
+                     /\ e.pn = "" /\ e.r[1] = (IF okExp THEN 1 ELSE 0)
+                     \* contents: last value wins; a failed `deserialize` leaves the target untouched
+                     /\ (IF replaced THEN KV(N) = LastWins(seen) /\ Cardinality(N) = Cardinality(LastWins(seen))
+                                           /\ \A z \in N : z[5] = PlanFn(hd, 0)[z[1]].pos /\ z[6] = PlanFn(hd, 0)[z[1]].tag
+                                           /\ (hd.tr = 1 => AllIds(N) \cap (AllIds(A) \cup AllIds(A2) \cup lk.ids) = {} /\ Cardinality(AllIds(N)) = IdCount(N))
+                         ELSE N = A)
+                     \* ledger: the replaced contents are dropped, nothing that is stored is dropped
+                     /\ (hd.tr = 1 => /\ NoDupSeq(e.dr) /\ SeqToSet(e.dr) \cap AllIds(N) = {}
+                                      /\ (IF replaced THEN AllIds(A) \subseteq SeqToSet(e.dr) ELSE SeqToSet(e.dr) \cap AllIds(A) = {}))
+                     \* a lying size hint cannot force over-allocation
+                     /\ e.r[3] <= LayoutSize(hd.es, hd.ea, CautiousBuckets) /\ e.r[2] <= Cap(CautiousBuckets - 1))
           [] e.op = "or_assign" -> AR(A, {}, e.pn = "")
           [] e.op = "xor_assign" -> AR(A, {z[2] : z \in {w \in A : w[1] \in Cls(A2)}}, e.pn = "")
           [] e.op \in OpForms -> AR(A, AllIds(ab[3]), e.pn = "")
@@ -220,7 +247,8 @@ OpStep(e) ==
           [] hd.kind = "table" -> AbsTableOp(e, A, pre, hq)
           [] OTHER -> AbsMapOp(e, A, A2, ph)
       newAb == [i \in 1..hd.nt |->
-                  IF e.op = "clone" /\ i = u THEN Elems(obsT[u])
+                  IF e.op \in {"clone", "serde_roundtrip"} /\ i = u THEN Elems(obsT[u])
+                  ELSE IF e.op \in {"serde_de", "serde_de_in_place"} /\ i = t THEN Elems(obsT[t])
                   ELSE IF e.op \in {"clone_from", "or_assign", "xor_assign"} /\ i = t THEN Elems(obsT[t])
                   ELSE IF e.op \in OpForms /\ i = 3 THEN Elems(obsT[3])
                   ELSE IF e.op \in OpForms THEN ab[i]
@@ -246,7 +274,13 @@ OpStep(e) ==
                   /\ obsX[3].lv
           [] OTHER -> TRUE
       cloneOK ==
-        IF e.op = "clone" THEN
+        IF e.op = "serde_roundtrip" THEN
+             LET N == Elems(obsT[u])
+             IN /\ KV(N) = KV(A) /\ Cardinality(N) = Cardinality(A)
+                /\ \A z \in N : z[5] = PlanFn(hd, 0)[z[1]].pos /\ z[6] = PlanFn(hd, 0)[z[1]].tag
+                /\ (hd.tr = 1 => AllIds(N) \cap (AllIds(A) \cup AllIds(A2) \cup lk.ids) = {} /\ Cardinality(AllIds(N)) = IdCount(N))
+                /\ obsX[u].lv /\ obsX[u].pl = 0
+        ELSE IF e.op = "clone" THEN
              /\ KVH(Elems(obsT[u])) = KVH(A) /\ Cardinality(Elems(obsT[u])) = Cardinality(A)
              /\ (hd.tr = 1 => /\ AllIds(Elems(obsT[u])) \cap (AllIds(A) \cup AllIds(A2) \cup lk.ids) = {}
                               /\ Cardinality(AllIds(Elems(obsT[u]))) = IdCount(Elems(obsT[u])))
@@ -259,7 +293,7 @@ OpStep(e) ==
         ELSE TRUE
       lvAfter(i) == IF e.op = "drop" /\ i = t THEN FALSE
                     ELSE IF e.op \in {"new", "with_capacity"} /\ i = t THEN TRUE
-                    ELSE IF e.op = "clone" /\ i = u THEN TRUE
+                    ELSE IF e.op \in {"clone", "serde_roundtrip"} /\ i = u THEN TRUE
                     ELSE IF e.op \in OpForms /\ i = 3 THEN TRUE ELSE tx[i].lv
       \* ---------- leaks (mem::forget of a Drain): elements not yielded and the block stay allocated forever
       forgot == e.op = "drain" /\ e.n = 1
@@ -271,7 +305,7 @@ OpStep(e) ==
       chkRet == absr.ok /\ cloneOK /\ algOK
       chkAbs == \A i \in 1..hd.nt : lvAfter(i) => Elems(obsT[i]) = newAb[i]
       chkLive == \A i \in 1..hd.nt : obsX[i].lv = lvAfter(i)
-      chkDrops == (hd.tr = 1) => (NoDupSeq(e.dr) /\ SeqToSet(e.dr) = absr.dr)
+      chkDrops == (hd.tr = 1 /\ e.op \notin {"serde_de", "serde_de_in_place"}) => (NoDupSeq(e.dr) /\ SeqToSet(e.dr) = absr.dr)
       chkInv == \A i \in 1..hd.nt : lvAfter(i) => InvMap(obsT[i], FALSE)
       chkLen == \A i \in 1..hd.nt : lvAfter(i) =>
                   /\ obsX[i].len = Cardinality(newAb[i]) /\ obsX[i].cap >= obsX[i].len
@@ -345,7 +379,7 @@ OpStep(e) ==
           [] e.op = "clone" -> NoIds(obsT[u]) = NoIds(pre) /\ obsT[t] = pre
           [] e.op = "clone_from" -> NoIds(obsT[t]) = exp
           [] e.op = "iter" -> obsT[t] = pre /\ IterStrict(e)
-          [] e.op \in OpForms \cup {"par_extend"} -> TRUE    \* (chunking of the collected input is schedule-dependent)
+          [] e.op \in OpForms \cup {"par_extend", "serde_roundtrip", "serde_de", "serde_de_in_place"} -> TRUE    \* (chunking of the collected input is schedule-dependent)
           [] e.op \in {"or_assign", "xor_assign"} -> NoIds(obsT[t]) = NoIds(exp)
           [] OTHER -> obsT[t] = exp
   IN /\ IF mine # {} THEN Fail(l, {b[1] : b \in mine}) ELSE TRUE
